@@ -48,7 +48,7 @@ func ParseTextStream(scanner *bufio.Scanner) (*BulkElement, error) {
 					bulkElement.Data = TransactionRequest{
 						Script: ledgercontroller.ScriptV1{
 							Script: vm.Script{
-								Plain: plain[:len(plain)-1], // remove last \n
+								Plain: strings.TrimSuffix(plain, "\n"), // remove last \n (a script may be empty: the body can end right after the header)
 							},
 						},
 					}
@@ -65,7 +65,7 @@ func ParseTextStream(scanner *bufio.Scanner) (*BulkElement, error) {
 				bulkElement.Data = TransactionRequest{
 					Script: ledgercontroller.ScriptV1{
 						Script: vm.Script{
-							Plain: plain[:len(plain)-1], // remove last \n
+							Plain: strings.TrimSuffix(plain, "\n"), // remove last \n (a script may be empty: the body can end right after the header)
 						},
 					},
 				}
